@@ -89,3 +89,7 @@ func HavocBytes(n int) []byte { return make([]byte, n) }
 // Assigns declares, inside a contract harness, the locations (pointers or
 // slices) the function under contract may modify: its frame.
 func Assigns(locs ...interface{}) {}
+
+// AssignsGlobal adds package-level variables of other packages (by full
+// name, e.g. "free5gclib/nas/security/snow3g.lfsr") to the frame.
+func AssignsGlobal(names ...string) {}
